@@ -22,6 +22,49 @@ Proof.
   symmetry. apply wrapper_inter_mem; assumption.
 Qed.
 
-(* constructing with time_support = ep selects the same samples as constructing and then restricting:
-   both are the same restrict_ts of the sorted timestamps (Model/Store.v makes this definitional);
-   here: restricting an already restricted series to the same set is the identity (idempotence, C03_idempotent) *)
+Lemma count_occ_filter (p : Z -> bool) l x :
+  count_occ Z.eq_dec (filter p l) x = if p x then count_occ Z.eq_dec l x else 0%nat.
+Proof.
+  induction l as [|y r IH]; simpl; [destruct (p x); reflexivity|].
+  destruct (p y) eqn:Hy; simpl.
+  - destruct (Z.eq_dec y x) as [->|Hn]; rewrite IH; [rewrite Hy|]; reflexivity.
+  - rewrite IH. destruct (Z.eq_dec y x) as [->|Hn]; [rewrite Hy|]; reflexivity.
+Qed.
+
+(* per sample (the statement's own form): a sample x farther than 1 us from every endpoint of a and b is selected by
+   restrict(a).restrict(b) exactly as often (0 times, or once per copy of x in ts) as by restrict(a.intersect(b)),
+   whatever the other samples are *)
+Theorem restrict_restrict_intersect_sample ts a b x :
+  sortedZ ts -> canonical a -> canonical b -> far x a b ->
+  count_occ Z.eq_dec (restrict_ts (restrict_ts ts a) b) x = count_occ Z.eq_dec (restrict_ts ts (iset_inter a b)) x.
+Proof.
+  intros Hs Ha Hb Hf.
+  rewrite (restrict_restrict ts a b Hs Ha Hb).
+  rewrite (restrict_ts_spec ts (iset_inter a b) Hs).
+  2:{ destruct (ops_canonical a b) as [H _]. exact H. }
+  rewrite !count_occ_filter. rewrite (wrapper_inter_mem a b x Ha Hb Hf). reflexivity.
+Qed.
+
+(* the result's time support is ep, or empty when no sample survives: x.restrict(ep) returns through the constructor
+   (Model/Store.v, OpRestrict) with the restricted timestamps and ep *)
+From Verif Require Import Model.Store Proofs.StoreProofs.
+
+Theorem restrict_support t ep :
+  sup_ (mk_ts_sup (restrict_ts t ep) ep) = match restrict_ts t ep with [] => [] | _ => ep end.
+Proof. reflexivity. Qed.
+
+(* constructing with time_support = ep selects the same samples as constructing without and then restricting, for ANY
+   (also unsorted) timestamps spanning a positive duration (all timestamps equal: the default support [x, x] is empty,
+   known finding of C04, zero_span_default_support) *)
+Theorem ctor_support_is_ctor_then_restrict t ep : canonical ep ->
+  match sortZ t with
+  | [] => True
+  | x :: _ => x < last (sortZ t) x ->
+      t_ (mk_ts_sup t ep) = t_ (mk_ts_sup (restrict_ts (t_ (mk_ts t)) ep) ep)
+  end.
+Proof.
+  intros Hc. pose proof (mk_ts_keeps t) as K. destruct (sortZ t) as [|x r] eqn:E; [exact I|].
+  intros Hlt. rewrite (K Hlt).
+  rewrite restrict_keeps; [| rewrite <- E; apply sortZ_sorted | exact Hc].
+  unfold mk_ts_sup. simpl. rewrite E. reflexivity.
+Qed.
